@@ -997,6 +997,18 @@ func parseAssigns(text, where string) ([]AssignItem, error) {
 				return nil, err
 			}
 			items = append(items, AssignItem{Kind: "anyfield", Type: te, Name: strings.TrimSpace(part[j+2:])})
+		case strings.HasPrefix(part, "ghost ") && strings.HasSuffix(part, "]"):
+			// ghost name[idx]: one cell of a ghost state component
+			rest := strings.TrimSpace(part[6:])
+			j := strings.Index(rest, "[")
+			if j < 0 {
+				return nil, fmt.Errorf("%s: assigns item %q: want ghost name[index]", where, part)
+			}
+			e, err := parseExprString(rest[j+1:len(rest)-1], where)
+			if err != nil {
+				return nil, err
+			}
+			items = append(items, AssignItem{Kind: "gstate", Name: strings.TrimSpace(rest[:j]), X: e})
 		case strings.HasPrefix(part, "global "):
 			items = append(items, AssignItem{Kind: "global", Name: strings.TrimSpace(part[7:])})
 		case strings.HasSuffix(part, "[..]"):
